@@ -172,7 +172,7 @@ def plan(tier):
     return {
         "cases": ns + tp["mapk_cases"] + tp["rand_cases"],
         "shards": 8 if quick else 14,
-        "min_nontrivial": 800 if quick else 2500,
+        "min_nontrivial": 1500 if quick else 2500,
         "timeout": 600 if quick else 2400,
         "min_fraction": 1.0,
         "require": {
@@ -369,6 +369,12 @@ def judge(ctx, acc, meta, halt, maxamp, inp, log, res, describe, layer):
     if halted is not None and not halt_reported:
         acc["halting_points_checked"] = acc.get("halting_points_checked", 0) + 1
 
+    if any(s in (BLOCKED, GATE_RAISED, FAILED) for s in state):
+        fp = (n, halt, tuple(state), bool(res.success) if res is not None else None)
+        if fp not in _seen_fp:
+            _seen_fp.add(fp)
+            ctx.nontrivial(fp)
+
     if res is None:
         acc["run_raised"] = acc.get("run_raised", 0) + 1
         return state
@@ -442,11 +448,6 @@ def judge(ctx, acc, meta, halt, maxamp, inp, log, res, describe, layer):
                                                           clamp_running([meta[i][4] for (i, _) in completion], maxamp),
                                                           clamp_final([meta[i][4] for (i, _) in completion], maxamp)})}))
 
-    if any(s in (BLOCKED, GATE_RAISED, FAILED) for s in state):
-        fp = (n, halt, tuple(state), bool(success))
-        if fp not in _seen_fp:
-            _seen_fp.add(fp)
-            ctx.nontrivial(fp)
     return state
 
 
